@@ -5,15 +5,8 @@ from .. import tlaparse
 from ..tlaparse import iter_dump, to_json
 
 CFG = """SPECIFICATION Spec
-CONSTANTS MaxGroups = %(groups)d
- Batches = {%(batches)s}
- Acts = {%(acts)s}
- MaxBuilt = %(built)d
- MaxCalls = %(calls)d
- MaxCtx = %(ctx)d
- Chain0 = %(chain0)d
- MempoolKey = "%(key)s"
- Repaired = {%(repaired)s}
+CONSTANTS Families <- FamiliesDef
+ Repaired = {%s}
 """
 # Deviations of the as-coded machine that have been repaired in /repo (see OpClient.tla, constant Repaired).  On the tree as found
 # this is empty.  After a repair of get_counter_offset ("validated-mempool") or of autofill's failure path ("failed-simulation")
@@ -37,8 +30,15 @@ CHAIN0 = 10
 
 
 def fam(name, key, calls, built=1, nctx=1, batches=(2,), acts=ALL, groups=None):
-    return dict(name=name, key=key, calls=calls, built=built, ctx=nctx, batches=', '.join(map(str, batches)),
-                acts=', '.join('"%s"' % a for a in acts), groups=groups or built + calls, chain0=CHAIN0, repaired=repaired())
+    """One family = one bounds record of OpClient.tla (Init picks a record of the constant Families)."""
+    return dict(name=name, key=key, calls=calls, built=built, ctx=nctx, batches=frozenset(batches), acts=frozenset(acts),
+                groups=groups or built + calls, chain0=CHAIN0)
+
+
+def wrapper(fams):
+    """OpClientMC: the families as a TLA+ set of records (a .cfg cannot hold records)."""
+    return ('---- MODULE OpClientMC ----\nEXTENDS OpClient\nFamiliesDef == {\n  %s }\n====\n'
+            % ',\n  '.join(tlaparse.to_tla(f) for f in fams))
 
 
 def families(quick):
@@ -47,7 +47,7 @@ def families(quick):
     two = ('fill', 'autofill', 'send', 'inject')
     if quick:
         return [fam('A-applied', 'applied', 5), fam('A-validated', 'validated', 4),
-                fam('B-applied', 'applied', 4, built=2, nctx=2, batches=(1,), acts=two),
+                fam('B-applied', 'applied', 4, built=2, nctx=2, batches=(1,), acts=('fill', 'autofill', 'inject')),
                 fam('B-shared', 'applied', 3, built=2, nctx=1, batches=(1, 2)),
                 fam('P-applied', 'applied', 7, batches=(1,), acts=auto), fam('P-validated', 'validated', 6, batches=(1,), acts=auto)]
     pipe = ('fill', 'autofill', 'inject', 'bake')
@@ -148,37 +148,39 @@ def run(ctx):
     ]
     exemplars = {}
     fams = families(ctx.quick)
-    for f in fams:
-        r = ctx.tlc('OpClient', CFG % f + INV_AS_CODED, name='OpClient-' + f['name'], dump=True, timeout=900)
-        ctx.require_no_violation(r, 'OpClient ' + f['name'])
-        ctx.require_coverage(r, ['AInject', 'AAutofill'])
-        n = 0
-        for st in iter_dump(r.dump):
-            log, hist = st['log'], st['hist']
-            if not log or log[-1]['at'] != st['calls']:
-                continue          # replay histories at the moment of an injection (every injection is the last event of one state)
-            n += 1
-            for l in log:
-                c = l['cls']
-                if c in CLASSES and (c not in exemplars or len(hist) < len(exemplars[c]['hist'])):
-                    if l is log[-1]:
-                        exemplars[c] = {'hist': to_json(hist), 'got': list(l['got']), 'want': list(l['want']), 'mempool_key': f['key']}
-            last = log[-1]
-            replay_history(ctx, hist, log, 'tz1', f['key'])
-            ctx.replayed += 1
-            ctx.count((f['key'], hist), nontrivial=last['cls'] != 'ok' or any(e[0] in ('bake',) for e in hist) or len(log) > 1)
-            if last['cls'] != 'ok' and len(hist) <= 5:
-                ctx.sample({'family': f['name'], 'hist': hist, 'injected': last['got'], 'demanded': last['want'], 'class': last['cls']}, limit=8)
+    # one TLC run for all families: Init picks the bounds record (constant Families of the generated wrapper module)
+    r = ctx.tlc('OpClientMC', CFG % repaired() + INV_AS_CODED, name='OpClientMC', dump=True, timeout=1500, gen={'OpClientMC': wrapper(fams)},
+                workers=4 if ctx.quick else None)
+    ctx.require_no_violation(r, 'OpClient')
+    ctx.require_coverage(r, ['ABuild', 'AFill', 'AAutofill', 'AAutofillFail', 'ASend', 'AInject', 'ABake'])
+    per_family = {}
+    for st in iter_dump(r.dump):
+        log, hist, f = st['log'], st['hist'], st['fam']
+        if not log or log[-1]['at'] != st['calls']:
+            continue          # replay histories at the moment of an injection (every injection is the last event of one state)
+        last = log[-1]
+        c = last['cls']
+        if c in CLASSES and (c not in exemplars or len(hist) < len(exemplars[c]['hist'])):
+            exemplars[c] = {'hist': to_json(hist), 'got': list(last['got']), 'want': list(last['want']), 'mempool_key': f['key']}
+        replay_history(ctx, hist, log, 'tz1', f['key'])
+        ctx.replayed += 1
+        per_family[f['name']] = per_family.get(f['name'], 0) + 1
+        ctx.count((f['key'], hist), nontrivial=c != 'ok' or any(e[0] in ('bake',) for e in hist) or len(log) > 1)
+        if c != 'ok' and len(hist) <= 5:
+            ctx.sample({'family': f['name'], 'hist': hist, 'injected': last['got'], 'demanded': last['want'], 'class': c}, limit=8)
+    missing = [f['name'] for f in fams if f['name'] not in per_family]
+    if missing:
+        raise RuntimeError('vacuity: no injection replayed for families %s' % missing)
+    ctx.extra['histories_replayed_per_family'] = per_family
     ctx.exhaustive = True
     # ---- the ideal property on the as-coded machine: expected to be violated; TLC's shortest counterexample is recorded ----
     ideal = {}
-    for key in ('applied', 'validated'):
-        f = dict(fam('ideal-' + key, key, 4), repaired='')     # the machine of the tree as found
-        r = ctx.tlc('OpClient', CFG % f + INV_IDEAL, name='OpClient-ideal-' + key, workers=1, timeout=600, coverage=False)
-        ideal[key] = {'violated': r.violation, 'counterexample': counterexample_hist(r.output) if r.violation else None}
+    r = ctx.tlc('OpClientMC', CFG % '' + INV_IDEAL, name='OpClientMC-ideal', workers=1, timeout=600, coverage=False,
+                gen={'OpClientMC': wrapper([fam('ideal-applied', 'applied', 4), fam('ideal-validated', 'validated', 4)])})
+    ideal = {'violated': r.violation, 'counterexample': counterexample_hist(r.output) if r.violation else None}
     ctx.extra['ideal_invariant_on_as_coded_machine'] = ideal
     ctx.extra['shortest_history_per_deviation_class'] = exemplars
-    if all(v['violated'] is None for v in ideal.values()):
+    if ideal['violated'] is None:
         ctx.notes.append('CountersOK (ideal) is no longer violated by the as-coded machine: OpClient.tla has been changed')
     # ---- Leg C ----
     leg_c(ctx)
@@ -186,14 +188,8 @@ def run(ctx):
 
 # ------------------------------------------------------------------ Leg C
 TCFG = """SPECIFICATION Spec
-CONSTANTS MaxGroups = 1000
- Batches = {1}
- Acts = {}
- MaxBuilt = 1000
- MaxCalls = 1000
+CONSTANTS Families = {}
  MaxCtx = %d
- Chain0 = 0
- MempoolKey = "applied"
  Repaired = {%s}
 POSTCONDITION Accepted
 """
